@@ -1538,6 +1538,9 @@ static int __mcount_entry(unsigned long *parent_loc, unsigned long child, struct
 			return -1;
 	}
 
+	if (unlikely(mcount_vfork_parent))
+		mcount_restore_vfork(mtdp);
+
 	tr.flags = 0;
 	filtered = mcount_entry_filter_check(mtdp, child, &tr);
 	if (filtered != FILTER_IN) {
@@ -1709,6 +1712,9 @@ static int __cygprof_entry(unsigned long parent, unsigned long child)
 			return -1;
 	}
 
+	if (unlikely(mcount_vfork_parent))
+		mcount_restore_vfork(mtdp);
+
 	filtered = mcount_entry_filter_check(mtdp, child, &tr);
 
 	if (unlikely(mtdp->in_exception)) {
@@ -1855,6 +1861,9 @@ static void _xray_entry(unsigned long parent, unsigned long child, struct mcount
 		if (!mcount_guard_recursion(mtdp))
 			return;
 	}
+
+	if (unlikely(mcount_vfork_parent))
+		mcount_restore_vfork(mtdp);
 
 	filtered = mcount_entry_filter_check(mtdp, child, &tr);
 
